@@ -130,7 +130,7 @@ def opNode : Op V → Nat
 inductive StepKind (F : Nat) (g : Graph V) : Op V → Graph V × Log → Prop
   | setParam {p x n v} : g p = .param x n → StepKind F g (.setParam p v) (g.set p (.param v (n+1)), [])
   | rewire {op i s s'} : (∀ j, op ≠ .read j) → (∀ p v, op ≠ .setParam p v) → opNode op = i →
-      g i = .struct s → s'.flag = true → s'.version = s.version → s'.fn = s.fn → s'.reads = s.reads →
+      g i = .struct s → s'.flag = true → s'.version = s.version → s'.fn = s.fn → s'.next = s.next →
       StepKind F g op (g.set i (.struct s'), [])
   | read {i} : StepKind F g (.read i) (Eval F g i)
   | rejected {op} : (∀ j, op ≠ .read j) → (∀ p v x n, op = .setParam p v → g p ≠ .param x n) →
